@@ -19,12 +19,20 @@ def register(name, **kw):
     SLICES[name] = kw
 
 
-def cut(root, rel, start_pat, end_pat, include_start=True, include_end=False):
+def cut(root, rel, start_pat, end_pat, include_start=True, include_end=False, after=None):
     path = os.path.join(root, rel)
     if not os.path.isfile(path):
         raise SliceError("file missing: " + rel)
     lines = open(path).read().split("\n")
-    s = [i for i, l in enumerate(lines) if re.search(start_pat, l)]
+    lo = 0
+    if after:
+        a = [i for i, l in enumerate(lines) if re.search(after, l)]
+        if len(a) != 1:
+            raise SliceError("region anchor %r matched %d times in %s" % (after, len(a), rel))
+        lo = a[0]
+    s = [i for i, l in enumerate(lines) if i >= lo and re.search(start_pat, l)]
+    if after:
+        s = s[:1]
     if len(s) != 1:
         raise SliceError("start anchor %r matched %d times in %s" % (start_pat, len(s), rel))
     e = [i for i, l in enumerate(lines) if i > s[0] and re.search(end_pat, l)]
@@ -40,7 +48,8 @@ def generate(spec, root):
     if name not in SLICES:
         raise SliceError("unknown slice " + name)
     d = SLICES[name]
-    body = cut(root, d["file"], d["start"], d["end"], d.get("include_start", True), d.get("include_end", False))
+    body = cut(root, d["file"], d["start"], d["end"], d.get("include_start", True), d.get("include_end", False),
+               d.get("after"))
     for pat, rep in d.get("subst", []):
         body, n = re.subn(pat, rep, body)
         if n == 0 and not d.get("subst_optional"):
@@ -97,4 +106,76 @@ register(
             "#[allow(unused_unsafe, unreachable_code)]\n"
             "unsafe fn slice_search_guard(handle: *mut IndexHandle, query: *const c_char) -> usize {"),
     suffix="  usize::MAX\n}",
+)
+
+
+# --------------------------------------------------------------------------
+# C11 / C16: the score cursor codec, cut into its three loop-free steps.  The
+# whole PaginationCursor::decode (21 chunk iterations, each with two anyhow
+# error exits) does not get through CBMC's symbolic execution even on a fully
+# concrete cursor (> 15 min), so the per-chunk step, the field extraction and
+# the byte layout of encode are checked separately and composed in the harness.
+# --------------------------------------------------------------------------
+register(
+    "cursor_chunk_step",
+    file="searchlite-core/src/api/reader.rs",
+    after=r"^\s*fn decode\(raw: &str\) -> Result<Self> \{",
+    start=r"for \(i, chunk\) in raw\.as_bytes\(\)\.chunks_exact\(2\)\.enumerate\(\) \{",
+    include_start=False,
+    end=r"^\s*bytes\[i\] = value;",
+    prefix=("/// SLICE (regenerated from the current source): body of the per-chunk loop of\n"
+            "/// `PaginationCursor::decode`, one 2-byte chunk -> one decoded byte.\n"
+            "#[allow(unused_variables)]\n"
+            "fn slice_cursor_chunk(i: usize, chunk: &[u8]) -> Result<u8> {"),
+    suffix="  Ok(value)\n}",
+)
+register(
+    "cursor_fields",
+    file="searchlite-core/src/api/reader.rs",
+    after=r"^\s*fn decode\(raw: &str\) -> Result<Self> \{",
+    start=r"^\s*let version = bytes\[0\];",
+    end=r"^  \}$",
+    prefix=("/// SLICE (regenerated from the current source): the part of `PaginationCursor::decode`\n"
+            "/// after the hex loop: 21 decoded bytes -> cursor (version / cap checks, field extraction).\n"
+            "fn slice_cursor_fields(bytes: [u8; CURSOR_BYTES]) -> Result<PaginationCursor> {\n"
+            "  type Self_ = PaginationCursor;"),
+    subst=[(r"\bSelf \{", "Self_ {")],
+    suffix="}",
+)
+register(
+    "cursor_layout",
+    file="searchlite-core/src/api/reader.rs",
+    after=r"^\s*fn encode\(&self\) -> String \{",
+    start=r"^\s*let score_bits = self",
+    end=r"^\s*let mut encoded = String::with_capacity",
+    prefix=("/// SLICE (regenerated from the current source): the byte layout built by\n"
+            "/// `PaginationCursor::encode` before hex-encoding.\n"
+            "fn slice_cursor_layout(this: &PaginationCursor) -> [u8; CURSOR_BYTES] {"),
+    subst=[(r"\bself\b", "this")],
+    suffix="  buf\n}",
+)
+register(
+    "cursor_hex",
+    file="searchlite-core/src/api/reader.rs",
+    after=r"^\s*fn encode\(&self\) -> String \{",
+    start=r"^\s*let mut encoded = String::with_capacity",
+    end=r"^\s*encoded$",
+    prefix=("/// SLICE (regenerated from the current source): the hex-encoding loop of\n"
+            "/// `PaginationCursor::encode`, applied to a single byte.\n"
+            "fn slice_cursor_hex(byte: u8) -> String {"),
+    subst=[(r"for byte in buf \{", "for byte in [byte] {")],
+    suffix="  encoded\n}",
+)
+register(
+    "cursor_generation_check",
+    file="searchlite-core/src/api/reader.rs",
+    after=r"^fn decode_cursor\(",
+    start=r"^\s*if cur\.generation != manifest_generation \{",
+    end=r"^\s*\}\);$",
+    include_end=True,
+    prefix=("/// SLICE (regenerated from the current source): what `decode_cursor` does with a decoded\n"
+            "/// score cursor (stale-generation rejection).\n"
+            "#[allow(unreachable_code)]\n"
+            "fn slice_cursor_generation_check(cur: PaginationCursor, manifest_generation: u32) -> Result<CursorState> {"),
+    suffix="}",
 )
